@@ -13,7 +13,7 @@ FIELD_TAINT = {
     ("attr", "key"): True, ("attr", "value"): True,
     ("meta", "value"): True, ("meta", "key"): False,
     ("asset", "url"): True, ("asset", "asset_path"): False,
-    ("footnote", "clean_text"): True, ("footnote", "label_text"): False,
+    ("footnote", "clean_text"): True, ("footnote", "label_text"): True,      # abbreviations store clean_text as their label
     ("abbr", "abbr"): True, ("abbr", "expansion"): True,
     ("scratch_pad", "bibtex_file"): True,
 }
@@ -22,7 +22,7 @@ TAINT_CALLS = {"text_inside_pair", "clean_inside_pair", "clean_string", "clean_s
                "d_string_copy_substring", "mmd_engine_metavalue_for_key", "xml_extract_named_attribute", "strstr", "strchr",
                "correct_dimension_units"}
 SAFE_CALLS = {"label_from_string", "label_from_token", "label_from_header", "uuid_new", "Translate", "label_from_attributes"}
-ESCAPERS = {"mmd_print_string_html", "mmd_print_char_html", "mmd_print_string_opendocument", "mmd_print_char_opendocument",
+ESCAPERS = {"mmd_print_string_latex", "mmd_print_char_latex", "mmd_print_string_html", "mmd_print_char_html", "mmd_print_string_opendocument", "mmd_print_char_opendocument",
             "mmd_print_source_opml", "mmd_print_source_itmz", "mmd_print_localized_char_html",
             "mmd_print_localized_char_opendocument", "mmd_print_source_html"}
 
@@ -207,6 +207,8 @@ def r_sink(P, chk, units=None, prop="C08"):
             continue
         if not f.file.endswith(".c"):
             continue
+        if f.name in ESCAPERS:
+            continue        # the escapers themselves: what they may copy raw is R-ESCAPER's obligation
         tv = None
         for c in f.calls():
             cal = c.get("callee")
@@ -343,7 +345,7 @@ RAW_META_KEYS_LATEX = {"latexheader", "latextitle", "latexauthor", "latexfooter"
 # what the literal text immediately before the argument must end with for the argument to be an identifier / path / option
 LATEX_ID_CONTEXT = re.compile(
     r"(\\(href|url|input|include|bibliography|nocite|gls|Gls|newglossaryentry|longnewglossaryentry|newacronym|label|autoref|ref|"
-    r"hyperref|cite[a-z]*|begin|end)(\[[^\]]*\])?\{[^{}]*$)|(\]\{$)|((language|width|height|scale)=$)|(^\{$)|(\\bibliography\{$)")
+    r"hyperref|bibitem|cite[a-z]*|begin|end)(\[[^\]]*\])?\{[^{}]*$)|(\]\{$)|((language|width|height|scale)=$)|(^\{$)|(\\bibliography\{$)")
 
 
 def _prev_literal(f, call):
@@ -393,7 +395,7 @@ def r_sink_latex(P, chk):
                   "or the value is a documented raw-LaTeX metadata key")
     n_sinks = n_tainted = 0
     for f in P.all_funcs:
-        if f.unit.base not in LATEX_UNITS or not P.first_party(f) or not f.file.endswith(".c"):
+        if f.unit.base not in LATEX_UNITS or not P.first_party(f) or not f.file.endswith(".c") or f.name in ESCAPERS:
             continue
         for c in f.calls():
             cal = c.get("callee")
@@ -441,3 +443,60 @@ def r_sink_latex(P, chk):
                               "mmd_print_string_latex: a %% & _ # $ { } in it is not escaped" % (f.name, f.src(a)[:60], how, (ctx or "")[-20:]))
     chk.floor(rid, n_sinks, 25, "non-literal string sinks in the LaTeX writers")
     chk.analysed[rid] = {"non_literal_sinks": n_sinks, "document_derived": n_tainted}
+
+
+# ---------------------------------------------------------------------------
+# R-SINK/provenance: the record fields R-SINK treats as sanitised really only ever hold sanitised values
+
+def r_sink_provenance(P, chk):
+    rid = "R-SINK/provenance"
+    chk.rule(rid, "every store into a record field that R-SINK treats as sanitised (asset.asset_path, *.label_text, meta.key) assigns a "
+                  "result of a sanitiser / generator (label_from_*, uuid_new, ...), a literal, NULL or a copy of such a field - "
+                  "the writers print these fields into attributes without escaping")
+    safe_fields = {k for k, v in FIELD_TAINT.items() if v is False}
+    n = 0
+
+    def positive(f, e, depth=0):
+        s = strip(e)
+        if s is None:
+            return True
+        if s["k"] == "StringLiteral" or const_value(s) == 0:
+            return True
+        if s["k"] == "CallExpr":
+            c = s.get("callee")
+            if c in SAFE_CALLS:
+                return True
+            if c in ("my_strdup", "strdup") and len(s["c"]) > 1:
+                return positive(f, s["c"][1], depth + 1)
+            return False
+        if s["k"] == "MemberExpr" and (s.get("rec"), s["n"]) in safe_fields:
+            return True
+        if s["k"] == "ConditionalOperator":
+            return positive(f, s["c"][1], depth + 1) and positive(f, s["c"][2], depth + 1)
+        if s["k"] == "DeclRefExpr" and s.get("dk") == "Var" and depth < 3:
+            defs = [x["c"][0] for x in f.walk() if x["k"] == "VarDecl" and x["n"] == s["n"] and x.get("c") and x["c"][0] is not None] + \
+                   [x["c"][1] for x in f.walk() if x["k"] == "BinaryOperator" and x["op"] == "=" and key(x["c"][0]) == s["n"]]
+            return bool(defs) and all(positive(f, d, depth + 1) for d in defs)
+        if s["k"] == "DeclRefExpr" and s.get("dk") == "Parm" and depth < 2:
+            idx = [i for i, p in enumerate(f.params) if p[0] == s["n"]]
+            sites = [(g, c) for g in P.all_funcs if P.first_party(g) for c in g.calls(f.name) if P.resolve(g, f.name) is f]
+            return bool(idx) and bool(sites) and all(idx[0] < len(c["c"]) - 1 and positive(g, c["c"][1 + idx[0]], depth + 1) for g, c in sites)
+        return False
+    for f in P.all_funcs:
+        if not P.first_party(f):
+            continue
+        for x in f.walk():
+            if x["k"] != "BinaryOperator" or x["op"] != "=":
+                continue
+            l = strip(x["c"][0])
+            if l is None or l["k"] != "MemberExpr" or (l.get("rec"), l["n"]) not in safe_fields:
+                continue
+            n += 1
+            ok = positive(f, x["c"][1])
+            chk.obligation(rid, "%s %s: %s.%s = %s" % (f.where(x), f.name, l.get("rec"), l["n"], key(x["c"][1])[:40]), ok)
+            if not ok:
+                chk.violation(rid, "provenance:%s:%s.%s" % (f.name, l.get("rec"), l["n"]), f.where(x),
+                              "%s stores `%s` into %s.%s, which the writers print into attribute values unescaped because it is "
+                              "supposed to hold only generated / sanitised text" % (f.name, f.src(x["c"][1])[:50], l.get("rec"), l["n"]))
+    chk.floor(rid, n, 4, "stores into sanitised record fields")
+    chk.analysed[rid] = {"stores": n, "fields": sorted("%s.%s" % k for k in safe_fields)}
